@@ -12,21 +12,64 @@ set_option linter.unusedSimpArgs false
 def Deliverable (t : MsgType) : Prop :=
   t = .vote ∨ t = .voteResp ∨ t = .app ∨ t = .appResp ∨ t = .heartbeat ∨ t = .heartbeatResp
 
-/-- a message of a lower term is ignored (no CheckQuorum, no PreVote) -/
-theorem sim_lower_term {val : Val} {voters : List Id} {n : Nat} {s : Spec.State} {r r' : Raft} {m : Message}
-    {e : Option StepErr} {fuel : Nat}
-    (hinv : RaftInv val voters n r (s.nodes n) s.msgs) (h0 : m.term ≠ 0) (hlt : m.term < r.term)
-    (hty : Deliverable m.typ) (h : (Raft.step (fuel + 1) m).run r = .ok (e, r')) : r' = r := by
+/-- the answer of a node (with CheckQuorum or PreVote) to a stale leader's MsgApp / MsgHeartbeat -/
+def staleResp (r : Raft) (m : Message) : Message :=
+  { to := m.from, typ := .appResp, «from» := r.cfg.id, term := r.term }
+
+/-- `r` with one more message queued behind the storage write -/
+def pushMaa (r : Raft) (x : Message) : Raft := { r with msgsAfterAppend := r.msgsAfterAppend ++ [x] }
+
+/-- a message of a lower term is ignored, except that a node with CheckQuorum (or PreVote) answers a stale leader's
+MsgApp / MsgHeartbeat with an empty MsgAppResp of its own term -/
+theorem lower_term_cases {r r' : Raft} {m : Message} {e : Option StepErr} {fuel : Nat}
+    (h0 : m.term ≠ 0) (hlt : m.term < r.term)
+    (hty : Deliverable m.typ) (h : (Raft.step (fuel + 1) m).run r = .ok (e, r')) :
+    r' = r ∨ ((r.cfg.checkQuorum || r.cfg.preVote) = true ∧ (m.typ = .app ∨ m.typ = .heartbeat) ∧
+      r' = pushMaa r (staleResp r m)) := by
   have h0' : (m.term == 0) = false := by simpa using h0
   have h1 : ¬ (m.term > r.term) := by omega
-  have hcq := hinv.st.cq
-  have hpv := hinv.st.pv
-  have key : (Raft.step (fuel + 1) m).run r = .ok (none, r) := by
-    rw [Raft.step]
-    rcases hty with ht | ht | ht | ht | ht | ht <;>
-      simp [StateT.run_bind, StateT.run_get, P_pure_eq, P_ok_bind, h0', h1, hlt, ht, hcq, hpv, StateT.run_pure]
-  rw [key] at h
-  injection h with h; injection h with _ h; exact h.symm
+  have ht0 : r.term ≠ 0 := by omega
+  cases hq : (r.cfg.checkQuorum || r.cfg.preVote) with
+  | false =>
+    left
+    have hq1 : ¬ (r.cfg.checkQuorum = true ∨ r.cfg.preVote = true) := by simpa using hq
+    have key : (Raft.step (fuel + 1) m).run r = .ok (none, r) := by
+      rw [Raft.step]
+      rcases hty with ht | ht | ht | ht | ht | ht <;>
+        simp [StateT.run_bind, StateT.run_get, P_pure_eq, P_ok_bind, h0', h1, hlt, ht, hq1, StateT.run_pure]
+    rw [key] at h
+    injection h with h; injection h with _ h; exact h.symm
+  | true =>
+    have hq1 : r.cfg.checkQuorum = true ∨ r.cfg.preVote = true := by simpa using hq
+    by_cases hk : m.typ = .app ∨ m.typ = .heartbeat
+    · right
+      refine ⟨rfl, hk, ?_⟩
+      have key : (Raft.step (fuel + 1) m).run r = .ok (none, pushMaa r (staleResp r m)) := by
+        rw [Raft.step]
+        rcases hk with ht | ht <;>
+          simp [StateT.run_bind, StateT.run_get, P_pure_eq, P_ok_bind, h0', h1, hlt, ht, hq1, StateT.run_pure,
+            Raft.send, StateT.run_modify, StateT.run_map, pushMaa, staleResp, ht0] <;> rfl
+      rw [key] at h
+      injection h with h; injection h with _ h; exact h.symm
+    · left
+      have key : (Raft.step (fuel + 1) m).run r = .ok (none, r) := by
+        rw [Raft.step]
+        rcases hty with ht | ht | ht | ht | ht | ht <;>
+          first
+          | (exfalso; simp [ht] at hk; done)
+          | simp [StateT.run_bind, StateT.run_get, P_pure_eq, P_ok_bind, h0', h1, hlt, ht, hq1, StateT.run_pure]
+      rw [key] at h
+      injection h with h; injection h with _ h; exact h.symm
+
+/-- a message of a lower term that is no MsgApp / MsgHeartbeat is ignored -/
+theorem sim_lower_term {r r' : Raft} {m : Message}
+    {e : Option StepErr} {fuel : Nat} (h0 : m.term ≠ 0) (hlt : m.term < r.term)
+    (hty : Deliverable m.typ) (hk : m.typ ≠ .app ∧ m.typ ≠ .heartbeat)
+    (h : (Raft.step (fuel + 1) m).run r = .ok (e, r')) : r' = r := by
+  rcases lower_term_cases h0 hlt hty h with h | ⟨_, h | h, _⟩
+  · exact h
+  · exact absurd h hk.1
+  · exact absurd h hk.2
 
 /-! ### what `becomeFollower` does, exactly -/
 
@@ -80,7 +123,7 @@ theorem RaftInv.becomeFollower {val : Val} {voters : List Id} {n : Nat} {r r1 : 
   exact {
     abs := habs
     st := {
-      id := hinv.st.id, idnz := hinv.st.idnz, pv := hinv.st.pv, cq := hinv.st.cq, xfer := rfl
+      id := hinv.st.id, idnz := hinv.st.idnz, pv := hinv.st.pv, xfer := rfl
       pri := hinv.st.pri, ro := rfl, tvoters := hinv.st.tvoters, tout := hinv.st.tout, tauto := hinv.st.tauto
       prog := fun v => by rw [hg, Option.isSome_map]; exact hinv.st.prog v
       nolearn := fun v pr hpr => by
@@ -116,20 +159,83 @@ theorem RaftInv.becomeFollower {val : Val} {voters : List Id} {n : Nat} {r r1 : 
     matchO := fun hl => by cases hl
     matchS := fun hl => by cases hl }
 
-/-- a message of a higher term: Spec `updateTerm`, then the same message is stepped at its own term -/
+/-- one more recorded promise behind the storage write -/
+theorem RaftInv.pushMaa {val : Val} {voters : List Id} {n : Nat} {r : Raft} {nd : Spec.Node}
+    {msgs : List Spec.Msg} (hinv : RaftInv val voters n r nd msgs) {x : Message} (hx : PromOK n nd.vol x) :
+    RaftInv val voters n (pushMaa r x) nd msgs where
+  abs := hinv.abs.congr rfl rfl rfl rfl
+  st := hinv.st.congr rfl rfl rfl rfl rfl rfl
+  wf := hinv.wf
+  unc := hinv.unc
+  leadInv := hinv.leadInv
+  candVote := hinv.candVote
+  termPos := hinv.termPos
+  logLe := hinv.logLe
+  candLt := hinv.candLt
+  pend := hinv.pend
+  durV := hinv.durV
+  durA := hinv.durA
+  out := hinv.out
+  prom := fun m hm => by
+    rcases List.mem_append.1 hm with h | h
+    · exact hinv.prom m h
+    · rw [List.mem_singleton.1 h]; exact hx
+  rvTerm := hinv.rvTerm
+  rvCov := hinv.rvCov
+  votes := hinv.votes
+  selfVote := hinv.selfVote
+  matchO := hinv.matchO
+  matchS := hinv.matchS
+
+/-- the answer to a stale leader is no promise of anything -/
+theorem staleResp_promOK {n : Nat} {r : Raft} {m : Message} {v : Spec.Ver} (hid : r.cfg.id = n)
+    (ht : r.term ≠ 0) : PromOK n v (staleResp r m) :=
+  ⟨hid, ht, fun _ => Or.inl rfl⟩
+
+/-- a delivered message of a lower term: the invariant is kept without any Spec action -/
+theorem RaftInv.lower_term {val : Val} {voters : List Id} {n : Nat} {r r' : Raft} {nd : Spec.Node}
+    {msgs : List Spec.Msg} {m : Message} {e : Option StepErr} {fuel : Nat}
+    (hinv : RaftInv val voters n r nd msgs) (h0 : m.term ≠ 0) (hlt : m.term < r.term)
+    (hty : Deliverable m.typ) (h : (Raft.step (fuel + 1) m).run r = .ok (e, r')) :
+    RaftInv val voters n r' nd msgs := by
+  rcases lower_term_cases h0 hlt hty h with rfl | ⟨_, _, rfl⟩
+  · exact hinv
+  · exact hinv.pushMaa (staleResp_promOK hinv.st.id (by omega))
+
+/-- a delivered message of a higher term either raises the term, or is a MsgVote ignored inside the leader lease
+(CheckQuorum) -/
+theorem raises_or_lease {r r' : Raft} {m : Message} {e : Option StepErr} {fuel : Nat} (hgt : r.term < m.term)
+    (hty : Deliverable m.typ) (h : (Raft.step (fuel + 1) m).run r = .ok (e, r')) :
+    RaisesTerm r m ∨ (e = none ∧ r' = r) := by
+  by_cases hl : m.typ = .vote ∧ m.context ≠ some campaignTransferCtx ∧ inLease r = true
+  · right
+    rw [Refinement.inLease_vote_ignored fuel m r (Or.inl hl.1) hgt hl.2.2 hl.2.1] at h
+    injection h with h; injection h with h1 h2
+    exact ⟨h1.symm, h2.symm⟩
+  · left
+    refine ⟨hgt, ?_, ?_, fun hv => ?_⟩
+    · rcases hty with ht | ht | ht | ht | ht | ht <;> rw [ht] <;> simp
+    · rcases hty with ht | ht | ht | ht | ht | ht <;> rw [ht] <;> simp
+    · by_cases hc : m.context = some campaignTransferCtx
+      · exact Or.inl hc
+      · right
+        cases hi : inLease r with
+        | false => rfl
+        | true => exact absurd ⟨hv, hc, hi⟩ hl
+
+/-- a message of a higher term: ignored (a MsgVote inside the leader lease), or Spec `updateTerm`, then the same
+message is stepped at its own term -/
 theorem sim_raise_term {val : Val} {voters : List Id} {n : Nat} {s : Spec.State} {r r' : Raft} {m : Message}
     {e : Option StepErr} {fuel : Nat}
     (hinv : RaftInv val voters n r (s.nodes n) s.msgs) (hgt : r.term < m.term)
     (hty : Deliverable m.typ) (h : (Raft.step (fuel + 1) m).run r = .ok (e, r')) :
-    ∃ r1 s1, RunL (cfgOf voters) s [.updateTerm n m.term] s1 ∧ s1.msgs = s.msgs ∧
+    r' = r ∨ ∃ r1 s1, RunL (cfgOf voters) s [.updateTerm n m.term] s1 ∧ s1.msgs = s.msgs ∧
       (s1.nodes n).dur = (s.nodes n).dur ∧
       RaftInv val voters n r1 (s1.nodes n) s1.msgs ∧ r1.term = m.term ∧ r1.state = .follower ∧
       (Raft.step (fuel + 1) m).run r1 = .ok (e, r') := by
-  have hk : RaisesTerm r m := by
-    refine ⟨hgt, ?_, ?_, fun _ => Or.inr ?_⟩
-    · rcases hty with ht | ht | ht | ht | ht | ht <;> rw [ht] <;> simp
-    · rcases hty with ht | ht | ht | ht | ht | ht <;> rw [ht] <;> simp
-    · unfold inLease; rw [hinv.st.cq]; rfl
+  rcases raises_or_lease hgt hty h with hk | ⟨_, hk⟩
+  case inr => exact Or.inl hk
+  right
   obtain ⟨r1, h1, hen, habs, _, hst, _, _, _, _, _, hterm, hrun⟩ :=
     Refinement.updateTerm_refines val (cfgOf voters) fuel m r r' e s n hinv.abs hk h
   have hn : (Spec.apply s (.updateTerm n m.term)).nodes n =
